@@ -60,6 +60,14 @@ type floor struct {
 	get  func() int64
 }
 
+// outDir is where evidence/ and replays/ are written (VERIF_OUT, default = verifDir).
+func outDir() string {
+	if d := os.Getenv("VERIF_OUT"); d != "" {
+		return d
+	}
+	return verifDir()
+}
+
 func verifDir() string {
 	if d := os.Getenv("VERIF_DIR"); d != "" {
 		return d
@@ -227,7 +235,7 @@ func (r *Run) Violation(signature, what string, witness any) bool {
 		return true
 	}
 	r.replayN++
-	dir := filepath.Join(verifDir(), "replays")
+	dir := filepath.Join(outDir(), "replays")
 	_ = os.MkdirAll(dir, 0o755)
 	path := filepath.Join(dir, fmt.Sprintf("%s-%d-%d.json", r.Prop, r.Seed, r.replayN))
 	doc := map[string]any{
@@ -329,7 +337,7 @@ func (r *Run) finish() int {
 	if r.Replay == "" {
 		b, err := json.MarshalIndent(doc, "", " ")
 		if err == nil {
-			dir := filepath.Join(verifDir(), "evidence")
+			dir := filepath.Join(outDir(), "evidence")
 			_ = os.MkdirAll(dir, 0o755)
 			tmp := filepath.Join(dir, "."+r.Prop+".json.tmp")
 			if os.WriteFile(tmp, b, 0o644) == nil {
